@@ -11,6 +11,7 @@ import Frugal.Props.Inst.F_facts_unknownIndexProtocol
 import Frugal.Props.Inst.F_skeleton_decoder
 import Frugal.Props.Inst.F_skeleton_encoder
 import Frugal.Props.Inst.F_skeleton_descTable
+import Frugal.Props.Inst.F_skeleton_resolver
 namespace Frugal.C11
 open Frugal
 /-- retained unknown-field bytes are re-emitted verbatim inside their struct, before STOP -/
@@ -202,5 +203,12 @@ theorem encoder_model_written_from_this_code : Generated.facts.encoderSkeleton =
     correspondence runs were validated against (regenerated fingerprint) -/
 theorem descriptor_tables_built_as_modelled : Generated.facts.descTableSkeleton = Skeleton.descTable :=
   Instances.skeleton_descTable
+
+/-- what a field is *declared* to be — required / optional, `nocopy`, the holder — is read from the
+    struct tags by the resolver (`DoResolveFields`, `lookupStructTag`, the annotation parser,
+    `newStructDesc`, `fromDefsField`): the model of it (Tags.lean) was written from exactly this control
+    structure of the code (regenerated fingerprint; C12 / C13 prove what the model does) -/
+theorem schema_read_from_tags_as_modelled : Generated.facts.resolverSkeleton = Skeleton.resolver :=
+  Instances.skeleton_resolver
 
 end Frugal.C11
